@@ -184,14 +184,18 @@ def c_spi(dw=8, mode="raw"):
     h.functions = ["litex.soc.cores.spi.spi_master.SPIMaster.__init__"]
     return h
 
+def c_waittimer(t):
+    from contracts.C11_timeout import c_waittimer as w
+    return w(t)
+
 def cases(tier):
-    cs = [Case("Timer(8)", c_timer, 8), Case("Timer(32)", c_timer, 32), Case("Watchdog(8)", c_watchdog, 8), Case("Watchdog(32)", c_watchdog, 32),
+    cs = [Case(f"WaitTimer({t})", c_waittimer, t) for t in (1, 3, 8, 100)] + [Case("Timer(8)", c_timer, 8), Case("Timer(32)", c_timer, 32), Case("Watchdog(8)", c_watchdog, 8), Case("Watchdog(32)", c_watchdog, 32),
           Case("RS232ClkPhaseAccum", c_phase_accum), Case("RS232PHYTX", c_uart_tx),
           Case("SPIMaster(8,raw)", c_spi, 8, "raw"), Case("SPIMaster(8,aligned)", c_spi, 8, "aligned")]
     if tier == "thorough": cs += [Case("SPIMaster(16,raw)", c_spi, 16, "raw"), Case("SPIMaster(32,aligned)", c_spi, 32, "aligned")]
     return cs
 
-ASSUMPTIONS = ["WaitTimer is under contract in C11; PWM, timeline not covered",
+ASSUMPTIONS = ["WaitTimer: done exactly after t consecutive wait cycles and held (saturating) while wait stays high (same contract as in C11); PWM, timeline not covered",
                "UART: transmitter framing and bit period (accumulator carry) proved for every 32-bit tuning word; the receiver (RS232PHYRX: frame recovery, phase offsets, +-2% rate mismatch) is NOT covered",
                "SPI master: divider and length are configuration constants during a transfer; MISO capture and SPISlave not covered; I2C master not covered",
                "'always finishes' is proved for the SPI master by a ranking function that strictly decreases in every busy cycle, for the UART TX by the tick-counting invariant (10 ticks per frame; tick liveness needs tuning word != 0)"]
